@@ -127,7 +127,7 @@ Proof.
 Qed.
 
 Lemma no_hrp_prefix n s : In n nets -> net_by_hrp s = None ->
-  has_prefix s (n_bech32 n) = false /\ has_prefix s (n_blech32 n) = false.
+  is_hrp s (n_bech32 n) = false /\ is_hrp s (n_blech32 n) = false.
 Proof.
   unfold net_by_hrp. intros Hn F.
   pose proof (find_none _ _ F n Hn) as Q. cbv beta in Q. apply orb_false_iff in Q. exact Q.
@@ -242,17 +242,27 @@ Proof.
 Qed.
 
 (* network and prefix tests on a string that starts with a network's prefix and the separator *)
-Lemma prefix_bech n r : In n nets ->
-  net_by_hrp (n_bech32 n ++ sep :: r) = Some n /\
-  has_prefix (n_bech32 n ++ sep :: r) (n_blech32 n) = false /\ has_prefix (n_bech32 n ++ sep :: r) (n_bech32 n) = true.
-Proof. intro H. apply in_nets in H as [-> | [-> | ->]]; repeat split; reflexivity. Qed.
-Lemma prefix_blech n r : In n nets ->
-  net_by_hrp (n_blech32 n ++ sep :: r) = Some n /\ has_prefix (n_blech32 n ++ sep :: r) (n_blech32 n) = true /\
-  has_prefix (n_blech32 n ++ sep :: r) (n_bech32 n) = false.
-Proof. intro H. apply in_nets in H as [-> | [-> | ->]]; repeat split; reflexivity. Qed.
-
 Lemma firstn_app_exact {A} (a b : list A) : firstn (length a) (a ++ b) = a.
 Proof. rewrite firstn_app, Nat.sub_diag, firstn_all. cbn. apply app_nil_r. Qed.
+
+Lemma segwit_prefix_canon h r : Forall (fun c => beqb c sep = false) r -> segwit_prefix (h ++ sep :: r) = h.
+Proof. intro NS. unfold segwit_prefix. rewrite (last_index_canon h r NS). apply firstn_app_exact. Qed.
+
+Lemma prefix_bech n r : In n nets -> Forall (fun c => beqb c sep = false) r ->
+  net_by_hrp (n_bech32 n ++ sep :: r) = Some n /\
+  is_hrp (n_bech32 n ++ sep :: r) (n_blech32 n) = false /\ is_hrp (n_bech32 n ++ sep :: r) (n_bech32 n) = true.
+Proof.
+  intros H NS. unfold net_by_hrp, is_hrp. rewrite (segwit_prefix_canon _ r NS).
+  apply in_nets in H as [-> | [-> | ->]]; repeat split; reflexivity.
+Qed.
+Lemma prefix_blech n r : In n nets -> Forall (fun c => beqb c sep = false) r ->
+  net_by_hrp (n_blech32 n ++ sep :: r) = Some n /\ is_hrp (n_blech32 n ++ sep :: r) (n_blech32 n) = true /\
+  is_hrp (n_blech32 n ++ sep :: r) (n_bech32 n) = false.
+Proof.
+  intros H NS. unfold net_by_hrp, is_hrp. rewrite (segwit_prefix_canon _ r NS).
+  apply in_nets in H as [-> | [-> | ->]]; repeat split; reflexivity.
+Qed.
+
 
 Lemma seg_len_checks tr prog : seg_ok tr prog ->
   ((length prog <? 2) || (40 <? length prog))%nat = false /\
@@ -305,7 +315,7 @@ Proof.
     replace (16 <? n8 (seg_ver tr)) with false by (destruct tr; reflexivity).
     replace (negb (Bool.eqb (n8 (seg_ver tr) =? 0) (negb tr))) with false by (destruct tr; reflexivity).
     rewrite C3, K1, K2. reflexivity. }
-  destruct (prefix_bech n cs Hn) as (N1 & N2 & N3). rewrite <- Sh in N1, N2, N3.
+  destruct (prefix_bech n cs Hn NS) as (N1 & N2 & N3). rewrite <- Sh in N1, N2, N3.
   assert (NW : network_for_address s = Ok n) by (unfold Addr.network_for_address; rewrite N1; reflexivity).
   assert (DT : decode_type s = Ok (seg_type tr prog)).
   { unfold Addr.decode_type. rewrite NW, N2, N3. unfold decode_bech32. rewrite FB. exact K3. }
@@ -337,7 +347,7 @@ Proof.
     replace (negb (Bool.eqb (n8 (seg_ver tr) =? 0) (negb (negb tr)))) with true by (destruct tr; reflexivity).
     reflexivity. }
   split; [exact FB|].
-  destruct (prefix_bech n cs Hn) as (N1 & N2 & N3). rewrite <- Sh in N1, N2, N3.
+  destruct (prefix_bech n cs Hn NS) as (N1 & N2 & N3). rewrite <- Sh in N1, N2, N3.
   unfold Addr.decode_type, Addr.network_for_address. rewrite N1, N2, N3. unfold decode_bech32. rewrite FB. reflexivity.
 Qed.
 
@@ -432,7 +442,7 @@ Proof.
     - unfold lenb. destruct tr; [reflexivity|]. destruct (Lkp' eq_refl) as [[Q _]|[Q _]]; rewrite Q; reflexivity. }
   assert (TB : to_blech32 (n_blech32 n) v key prog = Ok s).
   { unfold Addr.to_blech32. rewrite C1, Ev, En, FB, beqb_refl, bytes_eqb_refl. reflexivity. }
-  destruct (prefix_blech n cs Hn) as (N1 & N2 & N3). rewrite <- Sh in N1, N2, N3.
+  destruct (prefix_blech n cs Hn NS) as (N1 & N2 & N3). rewrite <- Sh in N1, N2, N3.
   assert (NW : network_for_address s = Ok n) by (unfold Addr.network_for_address; rewrite N1; reflexivity).
   destruct (seg_len_checks tr prog Hp) as (_ & _ & _ & K4).
   assert (DT : decode_type s = Ok (cseg_type tr prog)).
@@ -485,9 +495,9 @@ Proof.
       - change (n8 x00 =? 0) with true in TU. cbv iota in TU.
         destruct (bech_enc false (n_bech32 n) (x00 :: cv)) as [s0|]; [|discriminate]. inversion TU. eexists; split; reflexivity. }
     destruct Es as (s0 & Es & ->).
-    destruct (bech_shape _ _ _ _ Es) as (cs & Sh & _).
+    destruct (bech_shape _ _ _ _ Es) as (cs & Sh & NS).
     destruct (hrp_facts n Hn) as (_ & _ & LO & _). rewrite LO in Sh.
-    destruct (prefix_bech n cs Hn) as (_ & _ & N3). rewrite <- Sh in N3. rewrite N3, FU. exact TC.
+    destruct (prefix_bech n cs Hn NS) as (_ & _ & N3). rewrite <- Sh in N3. rewrite N3, FU. exact TC.
   - unfold Addr.from_confidential. rewrite NWc, DTc.
     replace ((cseg_type tr prog =? ConfidentialP2Pkh) || (cseg_type tr prog =? ConfidentialP2Sh)) with false
       by (unfold cseg_type; destruct tr; [|destruct (lenb prog 20)]; reflexivity).
